@@ -65,6 +65,7 @@ func hopByHopHeaders(respHeader http.Header) map[string]struct{} {
 		"Proxy-Connection":  {},
 		"Keep-Alive":        {},
 		"TE":                {},
+		"Te":                {}, // canonical form of TE, the one found in http.Header maps
 		"Transfer-Encoding": {},
 		"Upgrade":           {},
 		// RFC 9111 §3.1 proxy headers
